@@ -25,6 +25,9 @@ LIB = {
               'out': 'v', 'defaults': {'v': 1.0, 'w': 0.0, 'k': 4.0, 'c': 0.3}},
     'leak':  {'eqs': ["x' = -a*x + b*u"], 'state': ['x'], 'const': ['a', 'b'], 'in': 'u', 'out': 'x',
               'defaults': {'x': 0.5, 'a': 2.0, 'b': 1.0}},
+    # operator with a large array-valued constant (dict-form variable definition): w = zeros(1500), w[700] = wmid
+    'tab':   {'eqs': ["x' = -a*x + u + mean(w)"], 'state': ['x'], 'const': ['a', 'wmid'], 'in': 'u', 'out': 'x',
+              'defaults': {'x': 0.5, 'a': 2.0, 'wmid': 1500.0}, 'array': True},
     # deliberately malformed operators (F-badop: an API call that legitimately fails in the middle of a history)
     'bad_undecl': {'eqs': ["x' = -a*x + u + zz"], 'state': ['x'], 'const': ['a'], 'in': 'u', 'out': 'x',
                    'defaults': {'x': 0.5, 'a': 2.0}},
@@ -45,6 +48,8 @@ def ref_rhs(lib, p, s, u):
         return {'v': s['w'], 'w': -p['k'] * s['v'] - p['c'] * s['w'] + u}
     if lib == 'leak':
         return {'x': -p['a'] * s['x'] + p['b'] * u}
+    if lib == 'tab':
+        return {'x': -p['a'] * s['x'] + u + p['wmid'] / 1500.0}
     raise KeyError(lib)
 
 
@@ -194,6 +199,8 @@ def gen_net(rng, n_nodes=None, libs=('lin', 'sat', 'osc', 'leak', 'integ'), max_
         node_kind[nm] = k
         var = {}
         for c in LIB[k]['const']:
+            if c == 'wmid':
+                continue   # array constant: lives in the operator's own defaults
             if c in ('a', 'k', 'c', 'tau'):
                 var[c] = _grid(rng, 0.25, 3.0, 16)
             else:
@@ -241,6 +248,12 @@ def _vardecl(lib, defaults):
     for s in L['state']:
         out[s] = f"output({defaults[s]})" if (s == L['out'] or L.get('all_out')) else f"variable({defaults[s]})"
     for c in L['const']:
+        if L.get('array') and c == 'wmid':
+            import numpy as np
+            w = np.zeros(1500)
+            w[700] = defaults[c]
+            out['w'] = {'vtype': 'constant', 'value': w, 'shape': w.shape, 'dtype': 'float'}
+            continue
         out[c] = float(defaults[c])
     out[L['in']] = 'input(0.0)'
     return out
